@@ -109,7 +109,11 @@ def search(ctx):
                          {"codemod": cid, "program": name, "before": rec["before"], "after": rec["after"]})
                 continue
             # order of the untouched tokens
-            a, b = sig_tokens(rec["before"]), sig_tokens(rec["after"])
+            # import statements are added / removed / re-sorted by libcst's import visitors: their position is not part of the contract
+            strip_imports = lambda t: "".join(l for l in t.splitlines(keepends=True) if not l.lstrip().startswith(("import ", "from ")))
+            a, b = sig_tokens(strip_imports(rec["before"])), sig_tokens(strip_imports(rec["after"]))
+            if a is None or b is None:
+                continue
             rest_a = [t for t in a if t not in allow["removed"] and t not in allow["added"]]
             rest_b = [t for t in b if t not in allow["removed"] and t not in allow["added"]]
             if rest_a != rest_b:
